@@ -14,9 +14,8 @@ Keys == {"g", "g2"}
 
 NoCfg == [prio |-> 0, tk |-> FALSE, hn |-> -1, conn |-> FALSE, grace |-> 5000000, vi |-> 5000000,
           group |-> "g", h |-> 1000000, ttl |-> 3000000, cb |-> TRUE, ddur |-> 0]
-NoCall == [open |-> FALSE, call |-> "v", tok |-> 0, wasLeader |-> FALSE, saw |-> FALSE, nd |-> 0]
 NoStop == [open |-> FALSE, variant |-> "stop", del |-> FALSE, wait |-> FALSE, bound |-> 0, at |-> 0,
-           owner |-> FALSE, late |-> FALSE]
+           owner |-> FALSE, late |-> FALSE, hadClaim |-> FALSE]
 
 I0 == [present |-> FALSE, cfg |-> NoCfg,
        started |-> FALSE, stopped |-> FALSE, stopping |-> 0, part |-> FALSE, ready |-> FALSE,
@@ -28,10 +27,10 @@ I0 == [present |-> FALSE, cfg |-> NoCfg,
        failRun |-> 0, okStart |-> -1, hskip |-> FALSE,
        consecU |-> 0, hdue |-> FALSE,
        lastDisc |-> -1, graceDue |-> -1, verify |-> "none", verifyOwn |-> TRUE,
-       vc |-> NoCall, st |-> NoStop,
+       vc |-> {}, st |-> NoStop, halted |-> FALSE,
        burst |-> 0, burstT |-> -1,
        preSince |-> -1,
-       inflight |-> {}, lastEv |-> "", note |-> "", why |-> "", readyAt |-> -1, owes |-> FALSE, cut |-> FALSE]
+       inflight |-> {}, lastEv |-> "", note |-> "", why |-> "", readyAt |-> -1, owes |-> FALSE, cut |-> FALSE, hung |-> {}, verifyAt |-> -1]
 
 O0 == [scn |-> "", ended |-> TRUE, H |-> 1000000, TTL |-> 3000000, L |-> 0, PT |-> 5000000,
        rec |-> [k \in Keys |-> NoRec], tokens |-> {}, pend |-> {},
@@ -55,7 +54,7 @@ Calm(o)  == ~o.faulty /\ ~o.slow /\ ~o.outside /\ ~o.tk
 \* additionally those of C07
 Quiet(o) == Calm(o) /\ ~o.hc /\ ~o.connEv
 
-Cand(o, i) == LET x == o.I[i] IN x.present /\ x.started /\ ~x.stopped /\ x.stopping = 0 /\ ~x.part /\ x.ready
+Cand(o, i) == LET x == o.I[i] IN x.present /\ x.started /\ ~x.halted /\ ~x.part /\ x.ready /\ x.hung = {}
 
 SetI(o, i, x) == [o EXCEPT !.I[i] = x]
 
@@ -96,7 +95,9 @@ Tick(o, e) ==
       rs == [i \in Ids |-> IF o.I[i].present THEN TickInst(o, i, e) ELSE R(o.I[i], {})]
       slow == \E op \in o.pend : 2 * (t - op.at) >= o.H
       vac == {k \in Keys : o.vacSince[k] >= 0 /\ t > VacancyDeadline(o.vacSince[k], o.L)}
-      vv == {V("C06", "vacancy_not_filled_in_time", "env", e) : k \in vac}
+      \* a candidate must still be there when the bound expires (one that stopped meanwhile owes nothing)
+      vv == {V("C06", "vacancy_not_filled_in_time", "env", e) :
+                k \in {k2 \in vac : \E i \in Ids : Cand(o, i) /\ o.I[i].cfg.group = k2}}
       T(q) == OpTimeout(o.I[q.i].cfg.h)
       pend2 == {IF q.i \in Ids /\ q.kind = "update" /\ ~q.to /\ t - q.at >= T(q) THEN [q EXCEPT !.to = TRUE] ELSE q : q \in o.pend}
   IN R([o EXCEPT !.I = [i \in Ids |-> rs[i].o], !.slow = @ \/ slow, !.now = t, !.pend = pend2,
@@ -122,8 +123,9 @@ RecChanged(o, k, n, w, cause, e) ==
       \* validation calls in progress: did the record show the caller as owner at this moment?
       I2 == [i \in Ids |->
                LET x == I1[i] IN
-               IF x.vc.open /\ x.cfg.group = k /\ x.claim /\ ClaimBacked(i, n, x.vc.tok)
-               THEN [x EXCEPT !.vc.saw = TRUE] ELSE x]
+               IF x.vc # {} /\ x.cfg.group = k /\ x.claim
+               THEN [x EXCEPT !.vc = {IF ClaimBacked(i, n, x.ttok) THEN [c EXCEPT !.saw = TRUE] ELSE c : c \in @}]
+               ELSE x]
       becameVacant == p.live /\ ~n.live
       o2 == [o1 EXCEPT !.I = I2]
       anyCand == \E i \in Ids : Cand(o2, i) /\ o2.I[i].cfg.group = k /\ i # w
@@ -157,7 +159,7 @@ H_reset(o, e) ==
 
 H_start_call(o, e) ==
   LET x == o.I[e.i] IN
-  R(SetI(o, e.i, [x EXCEPT !.started = TRUE, !.stopped = FALSE, !.lastTo = "CANDIDATE", !.ready = FALSE]), {})
+  R(SetI(o, e.i, [x EXCEPT !.started = TRUE, !.stopped = FALSE, !.halted = FALSE, !.lastTo = "CANDIDATE", !.ready = FALSE]), {})
 
 H_stop_call(o, e) ==
   LET x == o.I[e.i]
@@ -166,8 +168,8 @@ H_stop_call(o, e) ==
              ELSE IF e.timeout > 0 THEN e.timeout ELSE IF e.ctx > 0 THEN e.ctx ELSE 5000000
       st == [open |-> TRUE, variant |-> e.variant, del |-> e.del, wait |-> e.wait,
              bound |-> StopBound(e.variant, tmo, x.cfg.ddur, e.wait), at |-> e.t,
-             owner |-> x.claim /\ ClaimBacked(e.i, r, x.ttok) /\ r.writer = e.i, late |-> FALSE]
-  IN R([SetI(o, e.i, [x EXCEPT !.stopping = @ + 1, !.st = st, !.owes = @ \/ (x.claim /\ x.cfg.cb)]) EXCEPT !.stopSeen = TRUE], {})
+             owner |-> x.claim /\ ClaimBacked(e.i, r, x.ttok) /\ r.writer = e.i, late |-> FALSE, hadClaim |-> x.claim]
+  IN R([SetI(o, e.i, [x EXCEPT !.stopping = @ + 1, !.st = st, !.halted = TRUE, !.ready = FALSE, !.owes = @ \/ (x.claim /\ x.cfg.cb)]) EXCEPT !.stopSeen = TRUE], {})
 
 H_stop_ret(o, e) ==
   LET x == o.I[e.i]
@@ -191,10 +193,11 @@ H_op_issue(o, e) ==
       v1 == IF x.stopped THEN {V("C09", "store_operation_after_stop_returned", e.i, e)} ELSE {}
       v2 == IF x.burst + 1 > 40 THEN {V("C13", "unbounded_operations_in_one_instant", e.i, e)} ELSE {}
       v3 == IF e.key # x.cfg.group THEN {V("C01", "operation_on_foreign_key", e.i, e)} ELSE {}
+      v4 == IF e.depth > 2 THEN {V("C13", "unbounded_recursion_of_acquisition", e.i, e)} ELSE {}
       \* first refresh attempt issued after the record was lost (C03)
       y == [x EXCEPT !.burst = @ + 1,
                      !.lostHb = IF x.lostAt >= 0 /\ @ = 0 /\ e.kind = "update" THEN e.op ELSE @]
-  IN R([SetI(o, e.i, y) EXCEPT !.pend = @ \cup {op}], v1 \cup v2 \cup v3)
+  IN R([SetI(o, e.i, y) EXCEPT !.pend = @ \cup {op}], v1 \cup v2 \cup v3 \cup v4)
 
 \* a successful mutation by instance w
 H_mutation(o, e) ==
@@ -205,7 +208,8 @@ H_mutation(o, e) ==
       m == [kind |-> e.kind, id |-> e.id, tok |-> e.tok, key |-> k]
       legit == LegitMutation(m, p, w, x.cfg.tk, x.cfg.prio, x.stopping > 0)
       foreign == p.live /\ p.writer # w
-      v1 == IF ~legit THEN {V("C01", "illegitimate_" \o e.kind \o (IF foreign THEN "_of_foreign_record" ELSE "_of_own_record"), w, e)} ELSE {}
+      how == IF e.kind = "delete" /\ x.st.open /\ x.st.hadClaim THEN ":by_stopping_instance_whose_record_was_already_lost" ELSE ""
+      v1 == IF ~legit THEN {V("C01", "illegitimate_" \o e.kind \o (IF foreign THEN "_of_foreign_record" ELSE "_of_own_record") \o how, w, e)} ELSE {}
       v1b == IF ~legit /\ e.kind = "update" /\ foreign /\ p.writer # "outside"
              THEN {V("C10", "replacement_without_strictly_higher_priority", w, e)} ELSE {}
       v2 == IF k # x.cfg.group THEN {V("C01", "mutation_of_foreign_group", w, e)} ELSE {}
@@ -219,10 +223,13 @@ H_mutation(o, e) ==
   IN R(r1.o, r1.v \cup v1 \cup v1b \cup v2 \cup v3 \cup v4)
 
 H_op_apply(o, e) ==
-  IF e.ok /\ e.kind \in {"create", "update", "delete"} THEN H_mutation(o, e)
-  ELSE R(o, {})
+  LET o1 == IF e.lost THEN [o EXCEPT !.faulty = TRUE, !.I[e.i].cut = TRUE] ELSE o IN
+  IF e.ok /\ e.kind \in {"create", "update", "delete"} THEN H_mutation(o1, e)
+  ELSE R(o1, {})
 
-H_op_fault(o, e) == R(Rearm([o EXCEPT !.faulty = TRUE, !.I[e.i].cut = TRUE], e.t + o.PT), {})
+H_op_fault(o, e) ==
+  R(Rearm([o EXCEPT !.faulty = TRUE, !.I[e.i].cut = TRUE,
+                    !.I[e.i].hung = IF e.ev = "op_hang" THEN @ \cup {e.op} ELSE @], e.t + o.PT), {})
 
 H_op_resp(o, e) ==
   LET x == o.I[e.i]
@@ -239,13 +246,15 @@ H_op_resp(o, e) ==
             ELSE IF isRefresh /\ e.ok /\ ~timely THEN [x EXCEPT !.revOK = FALSE]
             ELSE IF isRefresh /\ ~e.ok /\ timely /\ x.claim THEN [x EXCEPT !.failRun = @ + 1]
             ELSE x
-      y2 == IF e.kind = "watch" /\ e.ok THEN [y1 EXCEPT !.ready = ~x.stopped /\ x.stopping = 0, !.readyAt = e.t] ELSE y1
+      y2 == IF e.kind = "watch" /\ e.ok THEN [y1 EXCEPT !.ready = ~x.halted, !.readyAt = e.t] ELSE y1
       \* reconnect verification reads
-      y3 == IF known /\ x.verify # "none" /\ e.kind = "get" /\ q.src \in {"verify", "validate"}
-            THEN [y2 EXCEPT !.verify = IF q.src = "verify" THEN "second" ELSE "done",
-                            !.verifyOwn = @ /\ e.ok /\ Own(o, e.i)]
+      y3 == IF known /\ e.kind = "get" /\ q.src = "verify" /\ x.verify = "first"
+            THEN (IF e.ok /\ Own(o, e.i) THEN [y2 EXCEPT !.verify = "second", !.verifyAt = e.t]
+                  ELSE [y2 EXCEPT !.verify = "done", !.verifyOwn = FALSE])
+            ELSE IF known /\ e.kind = "get" /\ q.src = "validate" /\ x.verify = "second" /\ q.at = x.verifyAt
+            THEN [y2 EXCEPT !.verify = "done", !.verifyOwn = e.ok /\ Own(o, e.i)]
             ELSE y2
-      y4 == [y3 EXCEPT !.inflight = @ \ {e.op}]
+      y4 == [y3 EXCEPT !.inflight = @ \ {e.op}, !.hung = @ \ {e.op}]
       lostResp == e.lost \/ (~e.ok /\ e.err \in {"timeout", "connclosed", "noresponders"})
       o1 == SetI(o0, e.i, y4)
       o2 == IF lostResp THEN Rearm([o1 EXCEPT !.faulty = TRUE, !.I[e.i].cut = TRUE], e.t) ELSE o1
@@ -272,12 +281,15 @@ ClaimEdge(o, i, b, e) ==
       rising == b /\ ~x.claim
       falling == ~b /\ x.claim
       inStop == x.stopping > 0
+      inVod == \E c \in x.vc : c.call = "vod"
       y == IF rising
            THEN [x EXCEPT !.claim = TRUE, !.ttok = x.acqTok, !.trev = x.acqRev, !.acqFresh = FALSE, !.revOK = TRUE,
                           !.consecU = 0, !.hdue = FALSE, !.failRun = 0, !.okStart = e.t, !.hskip = FALSE,
-                          !.lostAt = -1, !.termLive = TRUE, !.ndRise = x.nd, !.preSince = -1, !.note = "", !.cut = x.part]
+                          !.lostAt = -1, !.termLive = TRUE, !.ndRise = x.nd, !.preSince = -1, !.note = "", !.cut = x.part,
+                          !.vc = {IF ClaimBacked(i, r, x.acqTok) THEN [c EXCEPT !.saw = TRUE] ELSE c : c \in @}]
            ELSE IF falling
            THEN [x EXCEPT !.claim = FALSE, !.termLive = FALSE, !.graceDue = -1, !.hdue = FALSE, !.why = x.note, !.note = "",
+                          !.verify = "none",
                           !.lostAt = IF x.cfg.cb /\ ~inStop THEN @ ELSE -1]
            ELSE x
       o1 == SetI(o, i, y)
@@ -287,7 +299,7 @@ ClaimEdge(o, i, b, e) ==
                  \cup (IF Calm(o) /\ ~AtMostOneLeader(Claims(o1, k)) THEN {V("C02", "two_leaders" \o Ctx(o), i, e)} ELSE {})
                  \cup (IF Calm(o) /\ ~ClaimBacked(i, r, y.ttok) THEN {V("C02", "claim_not_backed_by_record" \o Ctx(o), i, e)} ELSE {})
             ELSE {}
-      vf == IF falling /\ ~inStop /\ Quiet(o)
+      vf == IF falling /\ ~inStop /\ ~inVod /\ Quiet(o)
             THEN {V("C07", "leader_demoted_in_fault_free_operation:" \o x.note, i, e)} ELSE {}
       vg == IF falling /\ x.note = "grace_demote" /\ (x.lastDisc < 0 \/ e.t < x.lastDisc + x.cfg.grace)
             THEN {V("C11", "grace_demotion_before_grace_period_elapsed", i, e)} ELSE {}
@@ -313,7 +325,7 @@ H_promote(o, e) ==
       v2b == IF e.tok # x.ttok /\ x.claim THEN {V("C05", "promotion_token_differs_from_record_token", e.i, e)} ELSE {}
       v3 == IF x.stopped THEN {V("C09", "promotion_after_stop_returned", e.i, e)} ELSE {}
       v4 == IF e.ctx_err THEN {V("C19", "promotion_context_already_cancelled", e.i, e)} ELSE {}
-      y == [x EXCEPT !.np = @ + 1, !.term = e.term, !.ctxOpen = @ \cup {e.term}]
+      y == [x EXCEPT !.np = @ + 1, !.term = e.term, !.ctxOpen = IF e.blocks THEN @ \cup {e.term} ELSE @]
   IN R(SetI(o, e.i, y), v1 \cup v2 \cup v2b \cup v3 \cup v4)
 
 H_ctx_done(o, e) ==
@@ -325,7 +337,8 @@ H_ctx_done(o, e) ==
 H_demote(o, e) ==
   LET x == o.I[e.i]
       v1 == IF ~DemoteAllowed(x.np, x.nd) THEN {V("C08", "demotion_without_matching_promotion", e.i, e)} ELSE {}
-      v2 == IF Quiet(o) /\ x.stopping = 0 /\ ~x.owes THEN {V("C07", "demotion_callback_in_fault_free_operation", e.i, e)} ELSE {}
+      v2 == IF Quiet(o) /\ x.stopping = 0 /\ ~x.owes /\ ~(\E c \in x.vc : c.call = "vod")
+            THEN {V("C07", "demotion_callback_in_fault_free_operation", e.i, e)} ELSE {}
       y == [x EXCEPT !.nd = @ + 1, !.lostAt = IF ~x.claim THEN -1 ELSE @, !.owes = FALSE]
   IN R(SetI(o, e.i, y), v1 \cup v2)
 
@@ -361,16 +374,18 @@ H_heal(o, e) ==
 
 H_val_call(o, e) ==
   LET x == o.I[e.i]
-      vc == [open |-> TRUE, call |-> e.call, tok |-> x.ttok, wasLeader |-> x.claim, saw |-> Own(o, e.i), nd |-> x.nd]
-  IN R(SetI(o, e.i, [x EXCEPT !.vc = vc]), {})
+      c == [cid |-> e.cid, call |-> e.call, wasLeader |-> x.claim, saw |-> Own(o, e.i), nd |-> x.nd]
+  IN R(SetI(o, e.i, [x EXCEPT !.vc = @ \cup {c}]), {})
 
 H_val_ret(o, e) ==
   LET x == o.I[e.i]
-      v1 == IF e.ok /\ ~x.vc.saw THEN {V("C04", "validation_true_without_owning_record", e.i, e)} ELSE {}
+      cs == {c \in x.vc : c.cid = e.cid}
+      c == CHOOSE c \in cs : TRUE
+      v1 == IF e.ok /\ (cs = {} \/ ~c.saw) THEN {V("C04", "validation_true_without_owning_record", e.i, e)} ELSE {}
       v2 == IF e.call = "vod" /\ ~e.ok /\ e.leader THEN {V("C04", "still_leader_after_failed_validate_or_demote", e.i, e)} ELSE {}
-      v3 == IF e.call = "vod" /\ ~e.ok /\ x.vc.wasLeader /\ x.cfg.cb /\ x.nd <= x.vc.nd /\ x.stopping = 0
+      v3 == IF e.call = "vod" /\ ~e.ok /\ cs # {} /\ c.wasLeader /\ x.cfg.cb /\ x.nd <= c.nd /\ x.stopping = 0
             THEN {V("C04", "no_demotion_callback_after_failed_validate_or_demote", e.i, e)} ELSE {}
-  IN R(SetI(o, e.i, [x EXCEPT !.vc = NoCall]), v1 \cup v2 \cup v3)
+  IN R(SetI(o, e.i, [x EXCEPT !.vc = @ \ cs]), v1 \cup v2 \cup v3)
 
 \* snapshot of the public API at a quiescent point
 H_snap(o, e) ==
@@ -389,7 +404,7 @@ H_snap(o, e) ==
       v18c == IF y.stopped /\ (e.state # "STOPPED" \/ e.leader)
               THEN {V("C18", "not_stopped_after_stop", i, e), V("C09", "state_not_stopped_after_stop_returned", i, e)} ELSE {}
       v09 == IF y.stopped /\ e.leader THEN {V("C09", "reports_leadership_after_stop_returned", i, e)} ELSE {}
-      follower == ~y.claim /\ Cand(o1, i) /\ ~o1.faulty
+      follower == ~y.claim /\ Cand(o1, i) /\ ~o1.faulty /\ e.state = "FOLLOWER"
       bound == 1000000 + 6 * o1.L + o1.W
       settled == r.live /\ r.cls = "payload" /\ e.t - o1.recSince[k] > bound /\ e.t - y.readyAt > bound
       v18d == IF follower /\ settled /\ e.slid # r.id THEN {V("C18", "follower_leader_id_not_converged", i, e)} ELSE {}
